@@ -62,17 +62,30 @@ def helper_duals(run):
     spellings = []
     for shp in ([], [3], [3, 2], [0], [1, 0, 2]):
         spellings += [("size", torch.Size(shp)), ("tuple", tuple(shp)), ("list", list(shp))]
-    spellings += [("int", 0), ("int", 3), ("absent", None), ("other", object())]
-    for kind, bs in spellings:
+    import numpy as np
+    spellings += [("int", 0), ("int", 3), ("absent", None), ("other", object()), ("other", "3")]
+    # other iterables of integers (torch.Size accepts them): a fresh object per call (generators are consumed)
+    iters = [lambda: range(3), lambda: range(0), lambda: np.array([3, 2]), lambda: np.array([], dtype=np.int64), lambda: torch.tensor([3, 2]),
+             lambda: {4: "x", 2: "y"}, lambda: {5}, lambda: (i for i in [1, 0, 2]), lambda: {3: 1}.keys(), lambda: [np.int64(2), 3],
+             lambda: (torch.tensor(2), 1), lambda: [True, 2], lambda: b"3"]
+    spellings += [("iter", mk) for mk in iters]
+    # iterables with a member that is no integer
+    bads = [lambda: [3.0], lambda: (None,), lambda: ["3"], lambda: [3, 2.5], lambda: np.array([1.5]), lambda: torch.tensor([1.0]), lambda: [[1]], lambda: (x for x in [1.0])]
+    spellings += [("badseq", mk) for mk in bads]
+    for si, (kind, bs0) in enumerate(spellings):
         for src_kind, src in (("td", src_td), ("dict", {}), ("nosrc", None)):
             outs = []
             for comp in (False, True):
+                bs = bs0() if kind in ("iter", "badseq") else bs0
                 with mock.patch.object(TD, "is_compiling", lambda c=comp: c):
                     try:
-                        outs.append(list(TensorDict._parse_batch_size(src, bs)))
+                        outs.append([int(v) for v in TensorDict._parse_batch_size(src, bs)])
                     except Exception as e:
                         outs.append("err:" + err_class(e))
-            model = parse_sx(drv.ask(sx("c18.parse_bs", kind, list(bs) if kind in ("size", "tuple", "list") else ([bs] if kind == "int" else []), src_kind)))
+            bs = bs0() if kind in ("iter", "badseq") else bs0
+            ints = [int(v) for v in (list(bs) if kind in ("size", "tuple", "list", "iter") else ([bs] if kind == "int" else []))]
+            model = parse_sx(drv.ask(sx("c18.parse_bs", kind, ints, src_kind)))
+            bs = f"#{si}:{type(bs).__name__}" + (":" + repr(bs)[:30] if kind in ("size", "tuple", "list", "int", "absent") else "")
             run.case(("parse_bs", kind, str(bs), src_kind))
             run.corr("parse_bs_eager", [kind, str(bs), src_kind], outs[0] if isinstance(outs[0], list) else outs[0], model[0] if model[0] != "err" else "err:value")
             run.corr("parse_bs_compile", [kind, str(bs), src_kind], outs[1], model[1] if model[1] != "err" else "err:value")
@@ -352,7 +365,7 @@ def programs(run):
     import c18_ops as O
     rng = run.rng
     backends = ["eager"] if run.tier == "quick" else ["eager", "aot_eager", "inductor"]
-    nprog = 30 if run.tier == "quick" else 220
+    nprog = 30 if run.tier == "quick" else 180
     progs = list(CORPUS)
     if run.tier == "thorough":
         # the open finding C18-consolidate-aot-alias, re-derived on every thorough run (explicit backend)
